@@ -11,6 +11,7 @@
 #include "ada.h"
 #include "common.hpp"
 #include "sched/sched.h"
+#include "api_tour.hpp"
 #include <condition_variable>
 #include <fcntl.h>
 #include <limits>
@@ -178,10 +179,24 @@ static int free_main(const Args& A) {
       r += ada::can_parse("http://" EACUTE ".example/p") ? "1" : "0";
       auto pat = ada::parse_url_pattern<ada::url_pattern_regex::std_regex_provider>(std::string_view("https://*.example/:id"));
       if (pat) { auto m = pat->test(std::string_view("https://a.example/7"), nullptr); r += (m && *m) ? "T" : "F"; }
-      res[t] = r;
+      // the API tour: every public entry point on thread-private objects, data differs per thread
+      ada::set_max_input_length(std::numeric_limits<uint32_t>::max() - uint32_t(t));  // concurrent stores of harmless values
+      res[t] = api_tour(t + 10 * variant);
     });
   go.store(1, std::memory_order_release);
   for (auto& t : th) t.join();
+  // sequential oracle: the same tours run alone must give the same bytes
+  int bad = 0;
+  for (int t = 0; t < n; t++) {
+    std::string alone = api_tour(t + 10 * variant);
+    if (alone != res[t]) {
+      size_t i = 0; while (i < alone.size() && i < res[t].size() && alone[i] == res[t][i]) i++;
+      fprintf(stderr, "TOUR-MISMATCH thread %d at byte %zu: concurrent \"%s\" alone \"%s\"\n", t, i,
+              show(res[t].substr(i > 20 ? i - 20 : 0, 80)).c_str(), show(alone.substr(i > 20 ? i - 20 : 0, 80)).c_str());
+      bad++;
+    }
+  }
+  if (bad) return 77;
   printf("free ok %d\n", n);
   return 0;
 }
@@ -455,7 +470,7 @@ int main(int argc, char** argv) {
       for (int v = 0; v < reps; v++) {
         RunResult rr = run_proc({g_self, "--free", "1", "--n", std::to_string(n), "--variant", std::to_string(v)}, timeout_ms * 3);
         nfree++; R.evaluations++; R.nontrivial++;
-        std::string what = rr.timed_out ? "hang" : rr.exit_code == 66 ? "tsan-race" : rr.exit_code != 0 ? "crash-exit" + std::to_string(rr.exit_code) : "";
+        std::string what = rr.timed_out ? "hang" : rr.exit_code == 66 ? "tsan-race" : rr.exit_code == 77 ? "result-differs-from-sequential" : rr.exit_code != 0 ? "crash-exit" + std::to_string(rr.exit_code) : "";
         if (!what.empty()) {
           Violation vv; vv.cls = "C13/free/" + what; vv.summary = "free-running " + std::to_string(n) + " threads variant " + std::to_string(v) + ": " + what + " " + show(rr.raw_err.substr(0, 400));
           vv.witness = JObj().str("kind", "sched").str("prop", "C13").str("harness", "free").num("case", n).str("prefix", std::to_string(v)).str("what", what).done(); vv.size = size_t(n);
